@@ -10,6 +10,7 @@ import (
 	"fmt"
 	"io"
 	"log"
+	"math"
 	"net"
 	"os"
 	"slices"
@@ -377,17 +378,22 @@ func (s *Service) handleConn(conn net.Conn) {
 			return
 		}
 		sz := binary.LittleEndian.Uint64(b[0:])
+		if sz > math.MaxInt64 {
+			return
+		}
 
-		p := make([]byte, sz)
 		if s.connTimeout > 0 {
 			if err := conn.SetReadDeadline(time.Now().Add(s.connTimeout)); err != nil {
 				return
 			}
 		}
-		_, err = io.ReadFull(conn, p)
-		if err != nil {
+		// Read the message incrementally, so memory use grows only with the bytes
+		// actually received rather than with the length the peer claims.
+		var pbuf bytes.Buffer
+		if _, err = io.CopyN(&pbuf, conn, int64(sz)); err != nil {
 			return
 		}
+		p := pbuf.Bytes()
 
 		c := &proto.Command{}
 		err = pb.Unmarshal(p, c)
